@@ -704,3 +704,114 @@ Proof.
     + subst s'. rewrite buf_get_set_same. symmetry. exact Own.
     + rewrite buf_get_set_other, K3, Other by exact E. reflexivity.
 Qed.
+
+(* ================================================================ single-sentence messages *)
+
+Lemma single_correct : forall seen f rest, WF_frags (seen ++ f :: rest) -> f_single f = true ->
+  completes f (seen ++ [f]) = true /\ delivery_of (sf_sent f) = spec_assemble f (seen ++ [f]).
+Proof.
+  intros seen f rest W Hs.
+  assert (B := frag_count_snoc _ _ _ W).
+  assert (R := wf_range _ W f ltac:(apply in_or_app; right; left; reflexivity)).
+  assert (Hc : f_cnt f = 1).
+  { unfold f_single in Hs. apply andb_true_iff in Hs. destruct Hs as [Hs _]. apply Z.eqb_eq. exact Hs. }
+  assert (E : frags_of (sf_msg f) seen = []).
+  { destruct (frags_of (sf_msg f) seen); [reflexivity|]. simpl in B. lia. }
+  assert (E' : frags_of (sf_msg f) (seen ++ [f]) = [f]) by (rewrite frags_of_snoc_same, E; reflexivity).
+  split.
+  - unfold completes. rewrite E', Hc. reflexivity.
+  - unfold spec_assemble, parts_in_order. rewrite E', Hc. simpl.
+    replace (f_num f =? 1) with true by (symmetry; apply Z.eqb_eq; lia). simpl.
+    rewrite !app_nil_r, andb_true_r. reflexivity.
+Qed.
+
+Lemma delivery_of_attach : forall w a, delivery_of (attach w a) = delivery_of a.
+Proof. intros [g|] a; reflexivity. Qed.
+
+(* ================================================================ running a loop over a well-formed schedule *)
+
+Definition skips (hs : list handler) : Prop := forall e, skippable e = true -> catches hs (Lib e) = true.
+
+Lemma stream_except_skips : skips stream_except.
+Proof. intros e H. destruct e; try discriminate; reflexivity. Qed.
+
+Lemma queue_except_skips : skips queue_except.
+Proof. intros e H. destruct e; try discriminate; reflexivity. Qed.
+
+Lemma asm_run_ext : forall step1 step2, (forall st p t, step1 st p t = step2 st p t) ->
+  forall ins st, asm_run step1 st ins = asm_run step2 st ins.
+Proof.
+  intros step1 step2 H. induction ins as [|[p t] ins IH]; intro st; simpl; [reflexivity|].
+  rewrite H. destruct (step2 st p t) as [[st' out]|e]; [|reflexivity]. rewrite IH. reflexivity.
+Qed.
+
+Lemma frags_app : forall a b, frags (a ++ b) = frags a ++ frags b.
+Proof. induction a as [|[f|g|e] a IH]; intro b; simpl; rewrite ?IH; reflexivity. Qed.
+
+Lemma run_schedule : forall hs, skips hs -> forall rest seen buf w,
+  WF_frags (seen ++ frags rest) -> (forall e, In (ISkipped e) rest -> skippable e = true) -> Inv seen buf ->
+  exists outs buf' w',
+    asm_run (generic_step hs) (buf, w) (schedule_lines rest) = (outs, Ok (buf', w')) /\
+    map (map delivery_of) outs = spec_deliveries_from seen rest /\
+    Inv (seen ++ frags rest) buf'.
+Proof.
+  intros hs Hhs. induction rest as [|i rest IH]; intros seen buf w W Sk I.
+  - exists [], buf, w. simpl. rewrite app_nil_r. auto.
+  - assert (Sk' : forall e, In (ISkipped e) rest -> skippable e = true) by (intros e He; apply Sk; right; exact He).
+    destruct i as [f|g|e]; simpl frags in *; simpl schedule_lines; simpl asm_run.
+    + (* a fragment *)
+      assert (R := wf_range _ W f ltac:(apply in_or_app; right; left; reflexivity)).
+      assert (W' : WF_frags ((seen ++ [f]) ++ frags rest)) by (rewrite <- app_assoc; exact W).
+      unfold ais_step. rewrite (is_single_spec f R).
+      destruct (f_single f) eqn:Hs.
+      * destruct (single_correct _ _ _ W Hs) as [C D].
+        assert (I' : Inv (seen ++ [f]) buf).
+        { destruct I as [Wb G]. split; [exact Wb|]. intro s. rewrite (G s). symmetry.
+          apply expected_other with (frags rest); [exact W|]. unfold occ. rewrite Hs. reflexivity. }
+        destruct (IH (seen ++ [f]) buf None W' Sk' I') as [outs [buf' [w' [E1 [E2 E3]]]]].
+        rewrite E1. exists ([attach w (sf_sent f)] :: outs), buf', w'.
+        split; [reflexivity|]. split; [|rewrite <- app_assoc in E3; exact E3].
+        simpl. rewrite C, delivery_of_attach, D, E2. reflexivity.
+      * destruct (buffer_step_correct _ _ _ _ W Hs I) as [buf1 [o [B1 [B2 B3]]]]. rewrite B1.
+        destruct (completes f (seen ++ [f])) eqn:C.
+        -- destruct B3 as [full [Bo Bd]]. subst o.
+           destruct (IH (seen ++ [f]) buf1 None W' Sk' B2) as [outs [buf' [w' [E1 [E2 E3]]]]].
+           rewrite E1. exists ([attach w full] :: outs), buf', w'.
+           split; [reflexivity|]. split; [|rewrite <- app_assoc in E3; exact E3].
+           simpl. rewrite C, delivery_of_attach, Bd, E2. reflexivity.
+        -- subst o.
+           destruct (IH (seen ++ [f]) buf1 w W' Sk' B2) as [outs [buf' [w' [E1 [E2 E3]]]]].
+           rewrite E1. exists ([] :: outs), buf', w'.
+           split; [reflexivity|]. split; [|rewrite <- app_assoc in E3; exact E3].
+           simpl. rewrite C, E2. reflexivity.
+    + (* a wrapper line: the buffer is untouched *)
+      destruct (IH seen buf (Some g) W Sk' I) as [outs [buf' [w' [E1 [E2 E3]]]]].
+      simpl fst. rewrite E1. exists ([] :: outs), buf', w'. split; [reflexivity|]. split; [|exact E3].
+      simpl. rewrite E2. reflexivity.
+    + (* a skipped line *)
+      rewrite (Hhs e (Sk e (or_introl eq_refl))).
+      destruct (IH seen buf w W Sk' I) as [outs [buf' [w' [E1 [E2 E3]]]]].
+      rewrite E1. exists ([] :: outs), buf', w'. split; [reflexivity|]. split; [|exact E3].
+      simpl. rewrite E2. reflexivity.
+Qed.
+
+Lemma Inv_init : Inv [] [].
+Proof. split; [exact I|]. intro s. reflexivity. Qed.
+
+Theorem stream_deliveries_correct : forall s, WF s ->
+  exists outs st, asm_run stream_step asm_init (schedule_lines s) = (outs, Ok st) /\
+                  map (map delivery_of) outs = spec_deliveries s.
+Proof.
+  intros s [W Sk]. rewrite (asm_run_ext _ _ stream_step_generic).
+  destruct (run_schedule _ stream_except_skips s [] [] None W Sk Inv_init) as [outs [buf' [w' [E1 [E2 _]]]]].
+  exists outs, (buf', w'). split; assumption.
+Qed.
+
+Theorem queue_deliveries_correct : forall s, WF s ->
+  exists outs st, asm_run queue_step asm_init (schedule_lines s) = (outs, Ok st) /\
+                  map (map delivery_of) outs = spec_deliveries s.
+Proof.
+  intros s [W Sk]. rewrite (asm_run_ext _ _ queue_step_generic).
+  destruct (run_schedule _ queue_except_skips s [] [] None W Sk Inv_init) as [outs [buf' [w' [E1 [E2 _]]]]].
+  exists outs, (buf', w'). split; assumption.
+Qed.
